@@ -186,4 +186,37 @@ PROPS = {
         'assumptions': ['RPC-initiated offers use NoPermit by design and are outside the bound', 'dial/read failures after an accepted offer wait for 15 s timeouts and are exercised in the thorough tier only'],
         'explanation': 'theorems held_le_limit, conservation, quiescent_full over all interleavings; step equality for the controller; "slot returned" monitors per outcome on the real code',
     },
+    'C12': {
+        'lean_targets': ['Shisui.Props.C12'],
+        'min_obligations': 15,
+        # driver argument list: ['C12'] = bootstrap compared as the code does today (container root: the deviation the
+        # monitor reports as clause bootstrap_binds_checkpoint_root); ['C12', 'ideal'] once light_client.go:251 hashes header.beacon
+        'runs': [{'name': 'lightclient', 'harness': ['C12'], 'driver': ['C12']}],
+        'rule': 'synthetic 512-member committees with REAL BLS keys (4 sets; 6 in thorough), aggregate signatures made with the sum of the '
+                'participating secret keys; (a) bootstraps through the real bootstrap() over a fake ConsensusAPI: checkpoint given as beacon block '
+                'root / LightClientHeader container root / other, one corruption (header field, committee key, branch node, checkpoint bit, wrong '
+                'fork type); (b) single cases: a synthetic store (slot anywhere in the period incl. first/last slot, next committee known or not, '
+                'participation maxima 0..512) and one update of kind full / finality / optimistic (deneb, capella, altair objects through the '
+                'repo\'s From* converters) or a raw GenericUpdate with every presence combination, slots around the store slot, the period '
+                'boundaries and the clock, participation 0/1/2/170/171/256/340..343/400/511/512, optionally ONE corruption (signature bit, genuine '
+                'signature over another message, signature of a subset, participation bit, finality / next-committee branch node, attested / '
+                'finalized header field, substituted next committee, one key of the store\'s committee, fork version / genesis root); verified AND '
+                'applied unconditionally; (c) 48 sequences of 36 updates (600 x 48 in thorough) from a bootstrapped store, mostly honest, walking across '
+                'period boundaries, a third of them through VerifyUpdate/VerifyFinalityUpdate/VerifyOptimisticUpdate + Apply*, applied iff '
+                'verified. non-trivial = the update passes the participation/time/period/relevance tests (so proofs and signature decide) or '
+                'changes the store, and every bootstrap; distinct = distinct input lines among those',
+        'trusted': ['BLS12-381 (kilic via blsu) — as an abstraction: a signature is taken to be valid iff its bytes are intact, the signed message is the signing root '
+                    'of the attested header under the fork version and genesis root given to verification, and the keys selected by the bits are the keys that signed',
+                    'SSZ hash_tree_root of SyncCommittee (512 keys), ExecutionPayloadHeader and ExecutionBranch by zrnt; header roots, Merkle folds, domain and signing '
+                    'root are recomputed in Lean with an executable SHA-256',
+                    'zrnt Spec.ForkVersion (fork schedule) on the VerifyUpdate/… wrapper path', 'time.Now pinned through Config.Chain.GenesisTime to the middle of the chosen slot'],
+        'assumptions': ['SYNC_COMMITTEE_SIZE = 512, 32 slots per epoch, 256 epochs per period (mainnet spec)',
+                        'branches have their SSZ vector lengths (6 / 5 nodes); slots below 2^40'],
+        'explanation': 'theorems: verify accepts only with all seven conditions (Lc.verify_sound) and refuses with a violated one (verify_complete); the branch checks pin the '
+                       'leaf in every opening of the state root up to an explicit collision (Mk.sound); apply is monotone, keeps optimistic >= finalized, needs 2/3 to '
+                       'change finalized header/committees, rotates only to the stored next committee, installs the next committee of the right period — per step and over ALL '
+                       'sequences from a bootstrapped store; ideal bootstrap binds the block root. Correspondence: the error of VerifyGenericUpdate must be ok exactly when the '
+                       'model has no violated condition and otherwise a member of the violated set; the store after ApplyGenericUpdate (slots, header identities, committee '
+                       'identities, participation maxima) must equal the model\'s exactly; all property clauses are evaluated on the implementation\'s own before/after stores',
+    },
 }
